@@ -61,10 +61,11 @@ def run_auto(case):
         if cfg["mode"] == "quiet":
             out.set_quiet(True)
         try:
+            target = _via_io(out, cfg)
             if cfg["values"] == ["-", "%", "|", "/"]:
-                ind = pim.ProgressIndicator(out, interval=cfg["interval"])  # ONE indicator object for every run of the case
+                ind = pim.ProgressIndicator(target, interval=cfg["interval"])  # ONE indicator object for every run of the case
             else:  # the constructor route for the indicator values
-                ind = pim.ProgressIndicator(out, interval=cfg["interval"], values=[{"%": "\\"}.get(v, v) for v in cfg["values"]])
+                ind = pim.ProgressIndicator(target, interval=cfg["interval"], values=[{"%": "\\"}.get(v, v) for v in cfg["values"]])
         except Exception as e:  # noqa: an indicator that cannot be built is an observation: the run did not leave normally
             return [dict(_event("", "new"), cfg=cfg),
                     dict(_event("", "end"), outcome="raised", exc=type(e).__name__, salive=False, sexc="", skipped=0)]
@@ -206,7 +207,8 @@ def random_case(rng):
             break
     cfg = {"mode": rng.choice(["ansi", "ansi", "ansi", "plain", "quiet"]),
            "values": rng.choice([["-", "%", "|", "/"]] * 3 + [["1", "2"], ["1", "2", "3"], ["-", "%", "|", "/", "+", "*", "~"]]), "w": 40, "interval": rng.choice([100, 100, 100, 50, 200, 0]),
-           "start": list(rng.choice(["AAAA", "AAAA", "AAAA", ""])), "end": list("END"), "body": body, "next": [], "prev": []}
+           "start": list(rng.choice(["AAAA", "AAAA", "AAAA", ""])), "end": list("END"), "body": body, "next": [], "prev": [],
+           "via": rng.choice(["output", "output", "io"]), "other": rng.choice(["plain", "ansi", "verbose", "quiet"])}
     sched = []
     # a random walk over thread ids and clock advances; elements that are not enabled when their turn comes are
     # skipped by run_auto, so any sequence is a schedule.  Bursts make long runs of one thread likely as well.
@@ -243,6 +245,27 @@ class Clock(object):
 _ERASE = "\r\x1b[2K"
 
 
+def _via_io(err_out, cfg):
+    """the route "an IO is handed to the indicator" (cfg["via"] == "io"): the indicator draws on the IO's error output -
+    err_out - and must take format and decoration from THAT output; the standard output of the IO is configured differently
+    (cfg["other"]: "plain" | "ansi" | "verbose" | "quiet"), as for `prog > file` on a terminal"""
+    if cfg.get("via", "output") != "io":
+        return err_out
+    from clikit.api.io import IO, Input, Output
+    from clikit.api.io import flags as F
+    from clikit.formatter import AnsiFormatter, PlainFormatter
+    from clikit.io.input_stream import StringInputStream
+    from clikit.io.output_stream import BufferedOutputStream
+
+    other = cfg.get("other", "plain")
+    std = Output(BufferedOutputStream(), AnsiFormatter(forced=True) if other in ("ansi", "verbose") else PlainFormatter())
+    if other == "verbose":
+        std.set_verbosity(F.VERY_VERBOSE)
+    if other == "quiet":
+        std.set_quiet(True)
+    return IO(Input(StringInputStream("")), std, err_out)
+
+
 def run_manual(case):
     """case = {"cfg": {mode, fmt, interval, w}, "ops": [{op, dt, m}]} -> trace"""
     import clikit.ui.components.progress_indicator as pim
@@ -264,10 +287,11 @@ def run_manual(case):
             out.set_verbosity(F.VERBOSE)
         if cfg["mode"] == "quiet":
             out.set_quiet(True)
+        target = _via_io(out, cfg)
         if cfg["interval"] == 100 and case.get("default_interval"):
-            ind = pim.ProgressIndicator(out)
+            ind = pim.ProgressIndicator(target)
         else:
-            ind = pim.ProgressIndicator(out, interval=cfg["interval"])
+            ind = pim.ProgressIndicator(target, interval=cfg["interval"])
         trace = [{"op": "new", "dt": 0, "m": [], "reset": False, "frames": [], "ops": [], "exc": "", "cfg": cfg}]
         for op in case["ops"]:
             k, m = op["op"], "".join(op["m"])
@@ -327,7 +351,8 @@ def nontrivial_manual(case):
 
 def random_manual_case(rng):
     mode = rng.choice(["ansi", "ansi", "ansi", "plain", "quiet"])
-    cfg = {"mode": mode, "fmt": rng.choice(["normal", "normal", "verbose"]), "interval": rng.choice([100, 100, 100, 0, 30, 250, 1000]), "w": 60}
+    cfg = {"mode": mode, "fmt": rng.choice(["normal", "normal", "verbose"]), "interval": rng.choice([100, 100, 100, 0, 30, 250, 1000]), "w": 60,
+           "via": rng.choice(["output", "io"]), "other": rng.choice(["plain", "ansi", "verbose", "quiet"])}
     ops = []
     for _ in range(rng.randint(2, 50)):
         x = rng.random()
@@ -416,6 +441,8 @@ def run(ctx):
         "Joined: at the moment the with-statement is left (normally or by the body's exception) no thread created by the "
         "indicator is alive; the completion phase of every schedule is fair (round-robin), so not leaving within the budget "
         "means the caller is blocked for ever",
+        "the indicator is handed an Output, or an IO whose standard output differs from its error output in decoration / verbosity "
+        "/ quietness: frames are judged on the error output, whose properties alone decide format and redrawing",
         "manual mode: throttle = distance between two redraws caused by advance(); plain output: frames are ' m' (the "
         "documented format without indicator) and advance() does not draw",
     ]
@@ -475,6 +502,8 @@ def run(ctx):
         seen.add(hash(line))
         nman += 1
         case = manual_case_of_behaviour(beh)
+        if nman % 2:  # every second model behaviour goes through an IO whose standard output is the opposite kind
+            case["cfg"] = dict(case["cfg"], via="io", other="plain" if case["cfg"]["mode"] == "ansi" else "ansi")
         tr = run_manual(case)
         ctx.count()
         if nontrivial_manual(case):
